@@ -1,5 +1,6 @@
 import Eru.Lock.ProofsRedis
 import Eru.Lock.ProofsEtcd
+import Eru.Lock.Ctx
 /-
 C19 — a holder is told promptly when it loses its lock.
 etcd: proved (`etcd_loss_cancels`, `etcd_loss_bound`, `etcd_coexist_bound`).
@@ -59,6 +60,37 @@ theorem etcd_coexist_bound (p : Etcd.Params) (s : Etcd.State) (h : Etcd.Reach p 
 theorem etcd_unlock_no_false_alarm (s : Etcd.State) (i : Nat) : (Etcd.unlock s i).locked i = false := by
   simp [Etcd.unlock, Etcd.upd]
 
+/-! ## several locks held by one critical section -/
+
+theorem callbackCtx_eq (caller : Bool) (lost : List Bool) :
+    Ctx.callbackCtx caller lost = (caller || lost.any id) := by
+  unfold Ctx.callbackCtx
+  induction lost generalizing caller with
+  | nil => simp
+  | cons l ls ih => simp only [List.foldl_cons, ih, Ctx.lockCtx, List.any_cons, id, Bool.or_assoc]
+
+/-- **multi_key_loss_cancels.**  The context handed to the callback of `withNodesLocked` /
+    `withWorkloadsLocked` is cancelled as soon as ANY of the held locks is lost (or the caller's
+    context is cancelled) — not only the last one acquired. -/
+theorem multi_key_loss_cancels (caller : Bool) (lost : List Bool) (i : Nat) (h : lost[i]? = some true) :
+    Ctx.callbackCtx caller lost = true := by
+  rw [callbackCtx_eq]
+  have : lost.any id = true := List.any_eq_true.mpr ⟨true, List.mem_of_getElem? h, rfl⟩
+  simp [this]
+
+/-- and it stays live while nothing is lost -/
+theorem multi_key_no_false_alarm (lost : List Bool) (h : ∀ l ∈ lost, l = false) :
+    Ctx.callbackCtx false lost = false := by
+  rw [callbackCtx_eq]
+  simp only [Bool.false_or]
+  apply Bool.eq_false_iff.mpr
+  intro ha
+  obtain ⟨x, hx, hid⟩ := List.any_eq_true.mp ha
+  rw [h x hx] at hid; cases hid
+
+example : Ctx.seen false [true, false] = .cancelled ∧ Ctx.seen false [false, true] = .sessionDone ∧
+    Ctx.seen false [false, false] = .live := by decide
+
 /-! ## Redis -/
 
 /-- Full statement for Redis: a holder whose key expired at `e` has its context cancelled by `e + K`. -/
@@ -74,7 +106,7 @@ theorem redis_ctx_never_cancelled (p : Redis.Params) (s : Redis.State) (h : Redi
     ticks; its key is expired for `K` ticks and its context is still live. -/
 theorem redis_loss_counterexample (K : Nat) : ¬ PropC19_redis K := by
   intro hprop
-  let p : Redis.Params := ⟨1, 1⟩
+  let p : Redis.Params := ⟨1, 1, 1⟩
   have r1 : Redis.Reach p (Redis.begin p Redis.init 0 .lock) := .step .init (.begin _ 0 .lock rfl)
   have r2 := Redis.Reach.step r1 (Redis.Step.attempt _ 0 .lock 0 0 1 rfl (Nat.le_refl _) (by decide))
   have r3 := Redis.reach_ticks r2 (1 + K)
@@ -85,9 +117,9 @@ theorem redis_loss_counterexample (K : Nat) : ¬ PropC19_redis K := by
 /-- the same defect seen as coexistence: a second client acquires after the TTL while the first is
     still in its critical section, and both contexts are live — for ever (no step cancels them). -/
 theorem redis_two_holders_live_ctx :
-    ∃ s, Redis.Reach ⟨1, 1⟩ s ∧ Redis.isHolding s 0 ∧ Redis.isHolding s 1 ∧
+    ∃ s, Redis.Reach ⟨1, 1, 1⟩ s ∧ Redis.isHolding s 0 ∧ Redis.isHolding s 1 ∧
       s.ctxCancelled 0 = false ∧ s.ctxCancelled 1 = false := by
-  let p : Redis.Params := ⟨1, 1⟩
+  let p : Redis.Params := ⟨1, 1, 1⟩
   have r1 : Redis.Reach p (Redis.begin p Redis.init 0 .lock) := .step .init (.begin _ 0 .lock rfl)
   have r2 := Redis.Reach.step r1 (Redis.Step.attempt _ 0 .lock 0 0 1 rfl (Nat.le_refl _) (by decide))
   have r3 := Redis.Reach.step r2 (Redis.Step.tickServer _)
